@@ -70,6 +70,25 @@ func c01Pool() []c01Val {
 		c01Val{"f.uint.big", "fhir.uint.big", &dtpb.UnsignedInt{Value: 4294967295}},
 		c01Val{"f.pint.big", "fhir.pint.big", &dtpb.PositiveInt{Value: 3000000000}},
 	)
+	// extreme System values: beyond float64 in both directions, the empty and a spaced unit, bytes that are not UTF-8
+	huge := "1" + strings.Repeat("0", 400)
+	tiny := "0." + strings.Repeat("0", 400) + "1"
+	for _, x := range []struct{ id, class, text string }{{"dec.1e400", "dec.huge", huge + ".0"}, {"dec.-1e400", "dec.huge", "-" + huge + ".0"}, {"dec.1e-400", "dec.tiny", tiny}} {
+		if d, err := system.ParseDecimal(x.text); err == nil {
+			out = append(out, c01Val{x.id, x.class, d})
+		} else {
+			panic("c01 pool: " + err.Error())
+		}
+	}
+	for _, x := range []struct{ id, class, num, unit string }{{"qty.emptyunit", "qty.emptyunit", "1", ""}, {"qty.spacedunit", "qty.spacedunit", "1.5", "a b"}, {"qty.huge", "qty.huge", huge, "mg"}, {"qty.neg.emptyunit", "qty.emptyunit", "-2.5", ""}} {
+		if q, err := system.ParseQuantity(x.num, x.unit); err == nil {
+			out = append(out, c01Val{x.id, x.class, q})
+		} else {
+			panic("c01 pool: " + err.Error())
+		}
+	}
+	out = append(out, c01Val{"str.notutf8", "str.notutf8", system.String("a\xffb\xc3")}, c01Val{"str.nul", "str.nul", system.String("a\x00b")},
+		c01Val{"f.str.notutf8", "fhir.str.notutf8", fhir.String("\xff\xfe")})
 	return out
 }
 
